@@ -25,7 +25,12 @@ def run(tier, seed):
     vlib.run([exe, "all", tr], timeout=600)
     vlib.trace_leg(rep, "Trace_Rot.tla", "Trace_Rot.cfg", tr, "lattice",
                    "angles -> rotation / quaternion / SmartRotation3D and back on every lattice triple; normalisers; 2D; polar; spherical")
-    rep.exhaustive = True
+    # leg 3: generic (non-lattice) inputs over the whole quantified domain: residuals of the consistency relations
+    tr = os.path.join(W, "generic.ndjson")
+    vlib.run([exe, "generic", str(seed), str(20000 if tier == "quick" else 400000), tr], timeout=600)
+    vlib.trace_leg(rep, "Trace_Rot.tla", "Trace_Rot.cfg", tr, "generic",
+                   "random roll/yaw in (-2pi,2pi), pitch up to pi/2-1e-3, random rotations and non-unit quaternions, normalisers on (-4pi,4pi), "
+                   "points with norm 1e-6..1e6: residuals of the consistency relations <= 1e-9 (double) / 1e-4 (float)")
     rep.assumptions += ["EXACT RATIONAL LATTICE ONLY: roll, yaw in the 20 lattice angles (quarter turns, 3-4-5 and 7-24-25 angles) plus/minus a full "
                         "turn, pitch in the 12 with positive cosine; tolerance 1e-9 (double) / 1e-4 (float)",
                         "not decided: generic angles, the neighbourhood of gimbal lock, Transformation.hpp"]
